@@ -48,18 +48,37 @@ _add("SmVerif.Tie.Decode", "RsDecodeTokens", [
     "SmVerif.Tie.Decode.tie_decode_regular_tokens", "SmVerif.Tie.Decode.tie_decode_regular_tokens_4GiB",
     "SmVerif.Tie.Decode.lines_hypothesis_needed"])
 
+_add("SmVerif.Tie.Serialize", "RsSerialize", [
+    "SmVerif.Tie.tie_serialize_mappings", "SmVerif.Tie.tie_serialize_mappings_sortedByPos", "SmVerif.Tie.serialize_mappings_ok",
+    "SmVerif.Tie.tie_serialize_mappings_any", "SmVerif.Tie.tie_serialize_mappings_unsorted", "SmVerif.Tie.tie_serialize_mappings_diverge",
+    "SmVerif.Tie.tie_encode_rmi", "SmVerif.Tie.encode_rmi_nil",
+    "SmVerif.Tie.tie_serialize_range_mappings", "SmVerif.Tie.serialize_range_mappings_ok", "SmVerif.Tie.tie_serialize_range_mappings_any",
+    "SmVerif.Tie.tie_serialize_range_mappings_unsorted", "SmVerif.Tie.tie_serialize_range_mappings_diverge"])
+# property theorems restated about the generated code (compositions property o tie)
+_P = "SmVerif.Tie.Props."
+_add("SmVerif.Tie.Props", "RsVlq", [_P + n for n in [
+    "gen_c11_roundtrip", "gen_c11_u32_diffs", "gen_c11_encode_vlq_diff", "gen_c11_agrees_standard", "gen_c11_err_empty",
+    "gen_c11_err_unterminated", "gen_c11_err_too_long"]])
+_add("SmVerif.Tie.Props", "RsDecodeTokens", [_P + n for n in [
+    "gen_c02_decode_eq_spec", "gen_c06_fault_rejected", "gen_c06_ok_resolves", "gen_c05_decode_safe", "gen_c05_decode_no_crash"]])
+_add("SmVerif.Tie.Props", "RsTypes", [_P + n for n in [
+    "gen_c04_lookup_none_iff", "gen_c04_lookup_greatest", "gen_c04_lookup_exact_first", "gen_c07_lookup_same_line", "gen_c07_lookup_other"]])
+_add("SmVerif.Tie.Props", "RsHermes", [_P + "gen_c14_scope", _P + "gen_c14_none_cases"])
+_add("SmVerif.Tie.Props2", "RsDecoder", [_P + n for n in [
+    "gen_c12_header_rule_slice", "gen_c12_header_rule_empty", "gen_c12_reader_eq_slice", "gen_c12_errors_coincide"]])
+
 # which tie modules speak about code a property's theorems depend on
 PROP_MODULES = {
-    "C01": ["SmVerif.Tie.Vlq", "SmVerif.Tie.Decode"],
-    "C02": ["SmVerif.Tie.Vlq", "SmVerif.Tie.Decode"],
-    "C03": ["SmVerif.Tie.Vlq"],
-    "C04": ["SmVerif.Tie.Lookup"],
-    "C05": ["SmVerif.Tie.Vlq", "SmVerif.Tie.Header", "SmVerif.Tie.Decode", "SmVerif.Tie.Lookup", "SmVerif.Tie.Hermes"],
-    "C06": ["SmVerif.Tie.Vlq", "SmVerif.Tie.Decode"],
-    "C07": ["SmVerif.Tie.Vlq", "SmVerif.Tie.Small", "SmVerif.Tie.Decode", "SmVerif.Tie.Lookup"],
-    "C11": ["SmVerif.Tie.Vlq"],
-    "C12": ["SmVerif.Tie.Header"],
-    "C14": ["SmVerif.Tie.Vlq", "SmVerif.Tie.Hermes"],
+    "C01": ["SmVerif.Tie.Vlq", "SmVerif.Tie.Decode", "SmVerif.Tie.Serialize"],
+    "C02": ["SmVerif.Tie.Vlq", "SmVerif.Tie.Decode", "SmVerif.Tie.Props"],
+    "C03": ["SmVerif.Tie.Vlq", "SmVerif.Tie.Serialize"],
+    "C04": ["SmVerif.Tie.Lookup", "SmVerif.Tie.Props"],
+    "C05": ["SmVerif.Tie.Vlq", "SmVerif.Tie.Header", "SmVerif.Tie.Decode", "SmVerif.Tie.Lookup", "SmVerif.Tie.Hermes", "SmVerif.Tie.Serialize", "SmVerif.Tie.Props"],
+    "C06": ["SmVerif.Tie.Vlq", "SmVerif.Tie.Decode", "SmVerif.Tie.Props"],
+    "C07": ["SmVerif.Tie.Vlq", "SmVerif.Tie.Small", "SmVerif.Tie.Decode", "SmVerif.Tie.Lookup", "SmVerif.Tie.Serialize", "SmVerif.Tie.Props"],
+    "C11": ["SmVerif.Tie.Vlq", "SmVerif.Tie.Props"],
+    "C12": ["SmVerif.Tie.Header", "SmVerif.Tie.Props2"],
+    "C14": ["SmVerif.Tie.Vlq", "SmVerif.Tie.Hermes", "SmVerif.Tie.Props"],
     "C17": ["SmVerif.Tie.Lookup"],
     "C19": ["SmVerif.Tie.Paths"],
 }
